@@ -24,7 +24,7 @@ LEVEL_TEXT = ('Exploration, complete for short strings and the position '
               'tie-biased decimals.')
 LEVEL_NOTE = ('Trusts python str slicing/find/replace as the definition of '
               'the text operations and Decimal for half-away-from-zero '
-              'rounding; SUBSTITUTE with an empty pattern, FIND of an empty '
+              'rounding; FIND of an empty '
               'needle past the end, UPPER/LOWER of non-ASCII letters and '
               'negative numbers that round to zero in TEXT are not asserted.')
 RULE = ('strings s (all of length <=3 over {a,b,A,space,e-acute}, sampled to '
@@ -176,7 +176,13 @@ def check_search(ctx, f, s, start, new='Q', inst=1):
         if isinstance(want, int):
             ctx.expect('identity-find', '=MID(B1,FIND(A1,B1,C1),LEN(A1))',
                        cells, f, f'{sc}:{cc}', case)
-    # SUBSTITUTE
+    # SUBSTITUTE (nothing to look for: the text stays as it is)
+    if not f:
+        ctx.expect('SUBSTITUTE', '=SUBSTITUTE(B1,A1,D1)', cells, s,
+                   f'empty-pattern:{cc}', case)
+        if inst >= 1:
+            ctx.expect('SUBSTITUTE', '=SUBSTITUTE(B1,A1,D1,E1)', cells, s,
+                       f'empty-pattern:nth:{cc}', case)
     if f:
         ctx.expect('SUBSTITUTE', '=SUBSTITUTE(B1,A1,D1)', cells,
                    s.replace(f, new), f'all:{cc}', case)
